@@ -183,6 +183,11 @@ def build(sp, omit=(), labels=None, originals=None, into=None):
         else:
             for t in todo:
                 table[lab(t)] = num(vals[t])
+    for key, val in (sp.get('sigma_table') or {}).items():
+        # non-additive mixture: the user writes a cross contact distance into the System's public sigma table
+        a, b = key.split('|')
+        if 'd:' + a not in omit and 'd:' + b not in omit:
+            s.diameter.sigma[lab(a), lab(b)] = val
     for name, table, mk in (('pot', s.potential, mk_pot), ('clo', s.closure, mk_clo), ('om', s.omega, mk_om)):
         items = [(key, spec) for key, spec in sp[name].items() if '%s:%s' % (name, key) not in omit]
         done = set()
@@ -200,10 +205,18 @@ def build(sp, omit=(), labels=None, originals=None, into=None):
             if key in done:
                 continue
             a, b = key.split('|')
+            late = {}
+            if name == 'pot' and originals is None and (spec_hash(sp) // 3) % 4 == 0:
+                # the user assigns the object first and completes it afterwards IN PLACE, addressing the pair with the labels in the
+                # other order (sys.potential['B','A'].rcut = 2.5): both orders are one and the same entry
+                late = {k: spec[k] for k in ('sigma', 'rcut', 'shift') if spec.get(k) not in (None, False)}
+                spec = {k: v for k, v in spec.items() if k not in late}
             obj = mk(spec) if name != 'clo' else mk_clo(spec, spec_hash(sp) // 10 + len(done) + sp['types'].index(a) + 2 * sp['types'].index(b))
             if originals is not None:
                 originals.append(obj)
             table[lab(a), lab(b)] = obj
+            for k, v in late.items():
+                setattr(table[lab(b), lab(a)], k, v)
     return s
 
 
